@@ -3,6 +3,6 @@ CONSTANT Names = {"x", "y"}
 CONSTANT NameSeq <- Seq2
 CONSTANT Shapes <- ShapesQ
 CONSTANT FlagsX <- FX3
-CONSTANT FlagsY <- FYq
+CONSTANT FlagsY <- FY3
 INVARIANT RefinesD
 CHECK_DEADLOCK FALSE
